@@ -23,9 +23,16 @@ const (
 	// StructTagHist is StructTag preceded, on another object of the same type, by a call that overrides the field's
 	// rule per call (RM{"F": "required"}): the tag's own rule is what judges the later plain call.
 	StructTagHist Kind = "struct-tag-after-override"
+	// StructTagOtherTag: the tagged type is validated under another tag name (alt, which gives the field different
+	// rules) immediately before the plain call: the valid tag's rule is what judges the plain call.
+	StructTagOtherTag Kind = "struct-tag-after-other-tag"
+	// StructTagLocalFn / VarLocalFn: preceded by a call that registered per-call functions under the names of the
+	// built-in rules; those functions belong to that call.
+	StructTagLocalFn Kind = "struct-tag-after-call-local-functions"
+	VarLocalFn       Kind = "var-after-call-local-functions"
 )
 
-var All = []Kind{StructTag, StructRM, Var, Map, MapIface, SliceMap, Url, UrlEsc, StructTagHist}
+var All = []Kind{StructTag, StructRM, Var, Map, MapIface, SliceMap, Url, UrlEsc, StructTagHist, StructTagOtherTag, StructTagLocalFn, VarLocalFn}
 
 // Box is the named carrier type for per-call rules.
 type Box[T any] struct{ F T }
@@ -33,7 +40,7 @@ type Box[T any] struct{ F T }
 // PathPrefix is the path under which the value is reported by each carrier ("" = no path).
 func PathPrefix(k Kind, v reflect.Value) string {
 	switch k {
-	case StructTag, StructTagHist:
+	case StructTag, StructTagHist, StructTagOtherTag, StructTagLocalFn:
 		return "F"
 	case StructRM:
 		return "Box[" + typeArgName(v.Type()) + "].F"
@@ -68,6 +75,35 @@ func TagType(t reflect.Type, rules string) reflect.Type {
 	st := reflect.StructOf([]reflect.StructField{{Name: "F", Type: t, Tag: reflect.StructTag(`valid:"` + rules + `"`)}})
 	stCache[k] = st
 	return st
+}
+
+var st2Cache = map[stKey]reflect.Type{}
+
+// TagType2 is TagType with a second tag name, alt, that gives the field rules no value satisfies.
+func TagType2(t reflect.Type, rules string) reflect.Type {
+	k := stKey{t, rules}
+	if st, ok := st2Cache[k]; ok {
+		return st
+	}
+	if len(st2Cache) > 4096 {
+		st2Cache = map[stKey]reflect.Type{}
+	}
+	st := reflect.StructOf([]reflect.StructField{{Name: "F", Type: t, Tag: reflect.StructTag(`valid:"` + rules + `" alt:"required|alt1,eq=-77|alt2"`)}})
+	st2Cache[k] = st
+	return st
+}
+
+// builtinNames: rule names a call may shadow with functions of its own.
+var builtinNames = []string{"to", "ge", "le", "oto", "gt", "lt", "eq", "noeq", "in", "include", "phone", "email", "idcard", "year", "year2month", "date", "datetime", "int", "ints", "float", "re", "ip", "ipv4", "ipv6", "unique", "json", "prefix", "suffix", "file", "dir"}
+
+func quiet(errBuf *strings.Builder, validName, objName, fieldName string, tv reflect.Value) {}
+
+func localFns() valid.Name2FnMap {
+	m := valid.Name2FnMap{}
+	for _, n := range builtinNames {
+		m[n] = quiet
+	}
+	return m
 }
 
 // TagOK reports whether the rule text can be carried in a conventional struct tag.
@@ -174,6 +210,29 @@ func Validate(k Kind, v reflect.Value, rules string) (string, bool) {
 		p := reflect.New(st)
 		p.Elem().Field(0).Set(v)
 		err = valid.Struct(p.Interface())
+	case StructTagOtherTag:
+		st := TagType2(v.Type(), rules)
+		first := reflect.New(st)
+		first.Elem().Field(0).Set(v)
+		_ = valid.ValidateStruct(first.Interface(), "alt")
+		p := reflect.New(st)
+		p.Elem().Field(0).Set(v)
+		err = valid.Struct(p.Interface())
+	case StructTagLocalFn:
+		st := TagType(v.Type(), rules)
+		first := reflect.New(st)
+		first.Elem().Field(0).Set(v)
+		_ = valid.StructForFns(first.Interface(), valid.RM{}, localFns())
+		p := reflect.New(st)
+		p.Elem().Field(0).Set(v)
+		err = valid.Struct(p.Interface())
+	case VarLocalFn:
+		vv := valid.NewVVar()
+		for n, f := range localFns() {
+			vv.SetValidFn(n, f)
+		}
+		_ = vv.SetRules(rules).Valid(v.Interface())
+		err = valid.Var(v.Interface(), rules)
 	case StructRM:
 		b := boxOf(v)
 		if b == nil {
